@@ -15,6 +15,7 @@ import Osmium.Lemmas.IdSet
 import Osmium.Lemmas.RelMap
 import Osmium.Lemmas.Stash
 import Osmium.Generated.Consts
+import Osmium.Lemmas.SrcTie
 
 namespace Osmium.C15
 
@@ -192,5 +193,95 @@ theorem consts_tie_stash :
   refine ⟨by decide, fun s => ?_⟩
   simp only [Osmium.Stash.shouldGc, Osmium.Generated.Consts.stashGcMinRemoved, Osmium.Generated.Consts.stashGcMaxRemoved, Osmium.Generated.Consts.stashGcFactor, Osmium.Generated.Consts.stashGcFreeBytes]
   rfl
+
+/-! ### source ties (tools/cxx2lean.py): the functions REGENERATED from /repo's C++ source on every run
+    (Osmium/Generated/Src.lean) equal the hand-written model functions the theorems above are about.
+    Both instantiations `IdSetDense<uint64_t>` and `IdSetDense<uint32_t>` (chunk_bits = 22) are translated. -/
+
+section SrcTies
+open Osmium.Generated Osmium.CxxSem Osmium.SrcTie
+
+/-- `IdSetDense::chunk_id(id)` = `IdSet.chunkId 22` -/
+theorem src_tie_chunk_id (id : Nat) :
+    Src.IdSet.IdSetDense_u64_22.chunk_id (id : Int) = (IdSet.chunkId 22 id : Int) ∧
+    Src.IdSet.IdSetDense_u32_22.chunk_id (id : Int) = (IdSet.chunkId 22 id : Int) := by
+  have e : wrapU 64 (22 + 3) = ((25 : Nat) : Int) := by decide
+  simp only [Src.IdSet.IdSetDense_u64_22.chunk_id, Src.IdSet.IdSetDense_u32_22.chunk_id, IdSet.chunkId, e, shr_nat]
+  simp
+
+/-- `IdSetDense::offset(id)` = `IdSet.offset 22` -/
+theorem src_tie_offset (id : Nat) :
+    Src.IdSet.IdSetDense_u64_22.offset (id : Int) = (IdSet.offset 22 id : Int) ∧
+    Src.IdSet.IdSetDense_u32_22.offset (id : Int) = (IdSet.offset 22 id : Int) := by
+  have e : wrapU 32 (shl 32 1 22 - 1) = ((4194303 : Nat) : Int) := by decide
+  have e3 : (3 : Int) = ((3 : Nat) : Int) := rfl
+  simp only [Src.IdSet.IdSetDense_u64_22.offset, Src.IdSet.IdSetDense_u32_22.offset, IdSet.offset, e]
+  rw [e3, shr_nat, band_nat]
+  simp
+
+/-- `IdSetDense::bitmask(id)` = `IdSet.bitmask` (the model keeps the low byte, the value is ≤ 128) -/
+theorem src_tie_bitmask (id : Nat) :
+    Src.IdSet.IdSetDense_u64_22.bitmask (id : Int) = ((IdSet.bitmask id).toNat : Int) ∧
+    Src.IdSet.IdSetDense_u32_22.bitmask (id : Int) = ((IdSet.bitmask id).toNat : Int) := by
+  have e7 : (7 : Int) = ((7 : Nat) : Int) := rfl
+  have e1 : (1 : Int) = ((1 : Nat) : Int) := rfl
+  simp only [Src.IdSet.IdSetDense_u64_22.bitmask, Src.IdSet.IdSetDense_u32_22.bitmask, IdSet.bitmask]
+  rw [e7, band_nat, e1, shl_nat]
+  have h7 : id &&& 7 < 8 := by
+    have := @Nat.and_le_right id 7; omega
+  have : ∀ k, k < 8 → ((1 <<< k) % 2 ^ 32 : Nat) = (1#8 <<< k).toNat := by decide
+  simp [this _ h7]
+
+/-- none of the shifts in the three helpers can be undefined (amounts 25, 3, 22 and `id & 7` < 32) -/
+theorem src_defined_idset (id : Nat) :
+    Src.IdSet.IdSetDense_u64_22.chunk_id_defined (id : Int) = true ∧ Src.IdSet.IdSetDense_u64_22.offset_defined (id : Int) = true ∧
+    Src.IdSet.IdSetDense_u64_22.bitmask_defined (id : Int) = true ∧ Src.IdSet.IdSetDense_u32_22.chunk_id_defined (id : Int) = true ∧
+    Src.IdSet.IdSetDense_u32_22.offset_defined (id : Int) = true ∧ Src.IdSet.IdSetDense_u32_22.bitmask_defined (id : Int) = true := by
+  have e7 : (7 : Int) = ((7 : Nat) : Int) := rfl
+  have h7 : id &&& 7 < 8 := by
+    have := @Nat.and_le_right id 7; omega
+  simp only [Src.IdSet.IdSetDense_u64_22.chunk_id_defined, Src.IdSet.IdSetDense_u64_22.offset_defined,
+    Src.IdSet.IdSetDense_u64_22.bitmask_defined, Src.IdSet.IdSetDense_u32_22.chunk_id_defined,
+    Src.IdSet.IdSetDense_u32_22.offset_defined, Src.IdSet.IdSetDense_u32_22.bitmask_defined, e7, band_nat, shiftOk_iff]
+  refine ⟨by decide, by decide, ?_, by decide, by decide, ?_⟩ <;> omega
+
+/-- `ItemStash::should_gc()` = `Stash.shouldGc` on every stash whose members are size_t values with
+    `committed ≤ capacity` (the buffer invariant; without it the unsigned difference wraps).  Supersedes the
+    regex route of `consts_tie_stash`: the whole function, not only its four thresholds, comes from the source. -/
+theorem src_tie_should_gc (s : Src.ItemStash.ItemStash) (ht : Src.ItemStash.ItemStash.typed s = true)
+    (hc : s.m_buffer.m_committed ≤ s.m_buffer.m_capacity) :
+    Src.ItemStash.ItemStash.should_gc s = Stash.shouldGc (stashOfSrc s) := by
+  simp only [Src.ItemStash.ItemStash.typed, Src.Buffer.Buffer.typed, Bool.and_eq_true, inU_iff, inS_iff] at ht
+  dsimp only [Stash.shouldGc, Stash.committed, stashOfSrc, Src.ItemStash.ItemStash.should_gc, Src.Buffer.Buffer.capacity,
+    Src.Buffer.Buffer.committed]
+  have e1 : wrapU 64 (10 * 1000) = 10000 := by decide
+  have e2 : wrapU 64 (wrapU 64 (5 * 1000) * 1000) = 5000000 := by decide
+  have e4 : wrapU 64 (10 * 1024) = 10240 := by decide
+  have e5 : wrapU 64 (s.m_buffer.m_capacity - s.m_buffer.m_committed) = s.m_buffer.m_capacity - s.m_buffer.m_committed := by
+    apply wrapU_eq <;> omega
+  rw [e1, e2, e4, e5]
+  by_cases c1 : s.m_count_removed < 10000
+  · have : s.m_count_removed.toNat < 10 * 1000 := by omega
+    simp [c1, this]
+  · have n1 : ¬ s.m_count_removed.toNat < 10 * 1000 := by omega
+    by_cases c2 : 5000000 < s.m_count_removed
+    · have : s.m_count_removed.toNat > 5 * 1000 * 1000 := by omega
+      simp [c1, n1, c2, this]
+    · have n2 : ¬ s.m_count_removed.toNat > 5 * 1000 * 1000 := by omega
+      have e3 : wrapU 64 (s.m_count_removed * 5) = s.m_count_removed * 5 := by
+        apply wrapU_eq <;> omega
+      rw [e3]
+      by_cases c3 : s.m_count_removed * 5 < s.m_count_items
+      · have : s.m_count_removed.toNat * 5 < s.m_count_items.toNat := by omega
+        simp [c1, n1, c2, n2, c3, this]
+      · have n3 : ¬ s.m_count_removed.toNat * 5 < s.m_count_items.toNat := by omega
+        simp only [c1, n1, c2, n2, c3, n3, lt_iff, gt_iff, ite_false]
+        rw [Bool.eq_iff_iff, lt_iff]; refine Iff.trans ?_ decide_eq_true_iff.symm
+        omega
+
+example : Src.ItemStash.ItemStash.typed ⟨⟨1048576, 4096, 4096, 1⟩, ⟨12⟩, 20000, 15000⟩ = true ∧
+    (4096 : Int) ≤ 1048576 := by decide
+
+end SrcTies
 
 end Osmium.C15
